@@ -7,7 +7,7 @@
    [gate_run] a history of checks interleaved with Consume* calls on the processors sharing the
    limiter and MustRefuse calls of the extension; [life_run] a Start/Shutdown history.
    The limit predicates, checker constructors and Validate are Generated.MemLimiter18 (T1). *)
-From Verif Require Import Common.Base Generated.MemLimiter18 C18.Model C18.Proofs.
+From Verif Require Import Common.Base Generated.MemLimiter18 C18.Model C18.Proofs C18.ProofsShare C18.ProofsSys.
 Local Open Scope Z_scope.
 
 (* Clause 1.  After EVERY check of EVERY history (any readings, any GC effects, any clock) the
@@ -149,21 +149,54 @@ Theorem refcount_balance : forall ops,
   refcnt (fst (life_run life0 ops)) = starts ops - ok_shutdowns ops (snd (life_run life0 ops)).
 Proof. exact refcount_balance_l. Qed.
 
-(* "keeps running until the last user has shut down": the checker runs exactly while there are
-   users — proved for histories without a restart (every Start happens while the limiter has
-   users, or before any Start). *)
-Theorem checker_runs_while_used_partial : forall ops, no_restart ops ->
+(* "keeps running until the last user has shut down and then stops": for EVERY Start/Shutdown
+   history — restarts after a complete shutdown included — periodic checks happen exactly while
+   the limiter has users.  (Before fix 90db205a4 this failed after a restart: the ticker stopped
+   by the last Shutdown was never re-armed; Witness.v keeps that witness against the old step.) *)
+Theorem checker_runs_while_used : forall ops,
   let s := fst (life_run life0 ops) in checking s = (0 <? refcnt s).
 Proof. exact checker_runs_while_used_l. Qed.
 
-(* The unrestricted statement is FALSE of the faithful model (finding C18-RESTART): Start,
-   Shutdown, Start returns nil three times, the count is 1, the goroutine exists — but the ticker
-   was stopped by the Shutdown and is never re-armed, so no check ever happens again. *)
-Theorem checker_runs_while_used_refuted :
-  exists ops, let s := fst (life_run life0 ops) in
-              0 < refcnt s /\ goroutine s = true /\ checking s = false /\
-              snd (life_run life0 ops) = [false; false; false].
-Proof. exact restart_refuted_l. Qed.
+(* "the processors sharing one limiter": for EVERY sequence of create calls on one factory, two
+   successful calls get the same limiter iff they were given the same config object; a call fails
+   only when no limiter is cached for its config and none can be built, and then caches nothing. *)
+Theorem factory_shares_per_config : forall calls i j ki oki kj okj a b,
+  nth_error calls i = Some (ki, oki) -> nth_error calls j = Some (kj, okj) ->
+  nth_error (snd (factory_run [] calls)) i = Some (Some a) ->
+  nth_error (snd (factory_run [] calls)) j = Some (Some b) ->
+  (a = b <-> ki = kj).
+Proof. exact factory_shares_l. Qed.
+
+Theorem factory_failure_not_cached : forall f k ok,
+  snd (get_memory_limiter f k ok) = None ->
+  ok = false /\ f_lookup k f = None /\ fst (get_memory_limiter f k ok) = f.
+Proof. exact get_none_l. Qed.
+
+(* The limiter as a whole (Start/Shutdown, ticker-driven checks, MustRefuse queries), EVERY
+   schedule from a fresh limiter: the lifetime part evolves by the Start/Shutdown operations
+   alone, and mustRefuse/lastGCDone are those of the history of the ticks that were delivered. *)
+Theorem sys_state_is_effective_history : forall l s os,
+  s_life (fst (sys_run l s os)) = fst (life_run (s_life s) (life_ops os)) /\
+  s_st (fst (sys_run l s os)) = fst (run l (s_st s) (effective (s_life s) os)).
+Proof. exact (fun l s os => conj (sys_life_l l s os) (sys_state_l l s os)). Qed.
+
+(* While the limiter has users — after any schedule, restarts included — every tick IS a check
+   and after it the limiter refuses iff the most recent measurement >= limit - spike. *)
+Theorem sys_refuse_iff_soft : forall l t0 os t, wf l ->
+  let s := fst (sys_run l (sys0 t0) os) in
+  0 < refcnt (s_life s) ->
+  snd (sys_step l s (STick t)) <> SNoTick /\
+  refuse (s_st (fst (sys_run l (sys0 t0) (os ++ [STick t])))) =
+  (final_reading l (s_st s) t >=? l_limit l - l_spike l).
+Proof. exact sys_refuse_iff_soft_l. Qed.
+
+(* "... and then stops": after the last user's Shutdown no tick is delivered any more: whatever
+   ticks/queries follow, mustRefuse and lastGCDone stay as they are. *)
+Theorem sys_frozen_without_users : forall l t0 os qs,
+  refcnt (s_life (fst (sys_run l (sys0 t0) os))) = 0 ->
+  (forall o, In o qs -> passive o = true) ->
+  fst (sys_run l (sys0 t0) (os ++ qs)) = fst (sys_run l (sys0 t0) os).
+Proof. exact sys_frozen_without_users_l. Qed.
 
 Print Assumptions refuse_iff_soft.
 Print Assumptions refuse_iff_soft_validated.
@@ -181,5 +214,9 @@ Print Assumptions gate_end_to_end.
 Print Assumptions checker_lifetime.
 Print Assumptions shutdown_error_iff_not_started.
 Print Assumptions refcount_balance.
-Print Assumptions checker_runs_while_used_partial.
-Print Assumptions checker_runs_while_used_refuted.
+Print Assumptions checker_runs_while_used.
+Print Assumptions factory_shares_per_config.
+Print Assumptions factory_failure_not_cached.
+Print Assumptions sys_state_is_effective_history.
+Print Assumptions sys_refuse_iff_soft.
+Print Assumptions sys_frozen_without_users.
